@@ -40,11 +40,15 @@ func setAlg(prot *rc.Val, alg int64) {
 }
 
 func coincide(t *rapid.T, m *MsgSpec, o MsgOpts) {
-	if o.NoCoincide || rapid.IntRange(0, 3).Draw(t, "coincide") != 0 {
+	if o.NoCoincide || rapid.IntRange(0, 2).Draw(t, "coincide") != 0 {
 		return
 	}
 	done := func(name string) { stats.Class("coincidence/" + name) }
-	switch rapid.IntRange(0, 11).Draw(t, "coincidence") {
+	kind := rapid.IntRange(0, 11).Draw(t, "coincidence")
+	if m.Kind == refcose.KSign && len(m.Sigs) >= 2 && rapid.Bool().Draw(t, "coincidence-among-signers") {
+		kind = rapid.SampledFrom([]int{5, 5, 6, 9}).Draw(t, "signer-coincidence")
+	}
+	switch kind {
 	case 0: // payload equals the external data
 		if len(m.External) > 0 && len(o.PayloadLens) == 0 {
 			m.Payload = append(rc.Hex{}, m.External...)
@@ -103,7 +107,10 @@ func coincide(t *rapid.T, m *MsgSpec, o MsgOpts) {
 		if m.Kind == refcose.KSign && len(m.Sigs) >= 2 {
 			i := rapid.IntRange(0, len(m.Sigs)-1).Draw(t, "twin-src")
 			j := rapid.IntRange(0, len(m.Sigs)-1).Draw(t, "twin-dst")
-			if i != j {
+			if i > j {
+				i, j = j, i
+			}
+			if i != j && m.Sigs[i].TwinOf == 0 {
 				if rapid.Bool().Draw(t, "twin-eddsa") && o.FixedAlg == nil {
 					// a deterministic algorithm: the two entries come out byte for byte identical
 					m.Sigs[i].Key, m.Sigs[i].ViaKey = KeyMat(t, refcose.AlgEdDSA), false
@@ -111,8 +118,9 @@ func coincide(t *rapid.T, m *MsgSpec, o MsgOpts) {
 					m.Sigs[i].Groups = nil
 					stats.Class("coincidence/twin-signers-deterministic")
 				}
+				m.Sigs[i].Groups = nil
 				s := m.Sigs[i]
-				m.Sigs[j] = SigSpec{Key: s.Key, ViaKey: s.ViaKey, Prot: s.Prot.Clone(), Unprot: s.Unprot.Clone(), NoAlg: s.NoAlg, Inject: s.Inject}
+				m.Sigs[j] = SigSpec{Key: s.Key, ViaKey: s.ViaKey, Prot: s.Prot.Clone(), Unprot: s.Unprot.Clone(), NoAlg: s.NoAlg, Inject: s.Inject, TwinOf: i + 1}
 				done("twin-signers")
 			}
 		}
